@@ -992,7 +992,7 @@ PROPS = {
         "lean_module": ["Keto.Props.C14"],
         "theorems": ["Keto.C14_noninterference", "Keto.C14_progress", "Keto.C14_complete_runs", "Keto.C14_schedule_independent",
                      "Keto.C14_other_requests_irrelevant", "Keto.C14_cells_consistent", "Keto.C14_prewarmed_readonly",
-                     "Keto.C14_lazy_cells_write_once", "Keto.C14_prewarm_tie", "Keto.C14_lazyInit_tie", "Keto.C14_lockUse_tie",
+                     "Keto.C14_lazy_cells_write_once", "Keto.C14_prewarm_tie", "Keto.C14_lazyInit_tie", "Keto.C14_lockUse_tie", "Keto.C14_engine_stateless_tie",
                      "Keto.C14_shared_local_counterexample"],
         "streams": [{"name": "conc", "n": {"quick": 40, "thorough": 400}, "oracle": oracle_c14, "thorough_seeds": 3},
                     {"name": "conc-race", "n": {"quick": 10, "thorough": 60}, "oracle": oracle_c14, "thorough_seeds": 2, "race": True}],
